@@ -38,7 +38,7 @@ type component interface {
 	// New builds writer w's value.
 	New(r *run, w string) any
 	// Put hands w's value in at in-point p; sub is called from every subscriber callback of a fan-out component.
-	Put(r *run, p, w string, sub func(point string, val any)) error
+	Put(r *run, p, w string, sub func(point, key string, val any)) error
 	// Get queries a store at out-point p for what w handed in; ok=false: nothing to query.
 	Get(r *run, p, of string, arg int) (val any, key string, ok bool, err error)
 }
@@ -219,9 +219,15 @@ func (r *run) exec(sched []drv.Step) {
 			if len(segs) > 0 && segs[0][0] == nil {
 				after, segs = segs[0][1:], segs[1:]
 			}
+			// what follows the LAST marker runs after the call has returned (the component may call further subscribers
+			// the schedule does not name); only steps between two markers run inside a callback
+			if n := len(segs); n > 0 && len(segs[n-1]) > 1 {
+				after = append(after, segs[n-1][1:]...)
+				segs[n-1] = segs[n-1][:1]
+			}
 			ncb := 0
 			var mu sync.Mutex
-			err := r.put(p, w.name, func(point string, val any) {
+			err := r.put(p, w.name, func(point, key string, val any) {
 				mu.Lock()
 				defer mu.Unlock()
 				var seg []drv.Step
@@ -237,7 +243,7 @@ func (r *run) exec(sched []drv.Step) {
 					r.nauto++
 					to = fmt.Sprintf("s%d", r.nauto)
 				}
-				r.emitGet(point, "", to, val)
+				r.emitGet(point, key, to, val)
 				for _, o := range seg[min(1, len(seg)):] {
 					r.op(o)
 				}
@@ -266,7 +272,7 @@ func (r *run) exec(sched []drv.Step) {
 
 // put / get call into the component; a panic of the component (it was handed a value a writer had mutated into
 // something malformed) is recorded as an error, not as a crash of the executor.
-func (r *run) put(p, w string, sub func(string, any)) (err error) {
+func (r *run) put(p, w string, sub func(string, string, any)) (err error) {
 	defer func() {
 		if x := recover(); x != nil {
 			err = fmt.Errorf("panic: %v", x)
